@@ -248,10 +248,14 @@ func (e *Engine) atomicRMW(st *State, kind string, p PtrV, et types.Type, a, b V
 		}
 	}
 	// one atomic operation is one access for the stall hook
-	if e.hookObj != nil && !e.inAtomicOp {
-		for _, al := range p.Alts {
-			if al.Obj != nil {
-				e.hookTick(st, al.Obj, site, true)
+	if (e.hookObj != nil || e.hookSync) && !e.inAtomicOp {
+		if e.hookSync {
+			e.hookTick(st, nil, site, true)
+		} else {
+			for _, al := range p.Alts {
+				if al.Obj != nil {
+					e.hookTick(st, al.Obj, site, true)
+				}
 			}
 		}
 		e.inAtomicOp = true
@@ -312,6 +316,9 @@ func (e *Engine) mutexOp(st *State, p PtrV, fn *ssa.Function, op string, site st
 	} else {
 		wp, wT = e.subPtr(st, p, recvT, "sema", site)
 	}
+	if op == "lock" || op == "rlock" {
+		e.hookTick(st, nil, site, false)
+	}
 	w := e.Load(st, wp, wT, site).(IntV).T
 	zero := c.BV(0, 32)
 	switch op {
@@ -345,6 +352,13 @@ func (e *Engine) mutexOp(st *State, p PtrV, fn *ssa.Function, op string, site st
 // blockUntil: in sequential code a blocking operation whose condition is false can never proceed:
 // that is a deadlock of the (single-threaded) harness, reported as an obligation.
 func (e *Engine) blockUntil(st *State, ready smt.Term, what, site string) {
+	if e.hookBusy {
+		// the hook's adversary stands for other goroutines running while the main one is stopped
+		// at the hook point: where it would have to wait for the stopped goroutine, this stopping
+		// point is not one after which the adversary can run to completion
+		e.assume(st, ready)
+		return
+	}
 	e.fail(st, e.C.Not(ready), "noblock:"+what, site)
 }
 
